@@ -213,11 +213,17 @@ def run_histories(n, sub_seed, mode="procs"):
             shape = {"ops": sorted({o["op"] for p in plans for o in p})}
             lists = mp_lists(w.store) if mode == "procs" else {k2: v for k2, v in S.locked_lists(w.store, "th").items()}
             if hung:
-                if lists and any(lists.values()):
-                    res.violation(dict(shape, symptom="worker-hang", locked=sorted(k3 for k3, v in lists.items() if v)), wit)
+                # judged by state, not by time alone: after the generous watchdog every unfinished worker must be
+                # found PARKED in a condition wait() of the store (stack inspection / faulthandler dump) while all
+                # others have finished - nobody is left to notify it - or an identifier must still be claimed
+                locked = sorted(k3 for k3, v in (lists or {}).items() if v)
+                if hung == "parked-in-wait" or locked:
+                    res.violation(dict(shape, symptom="worker-hang", parked_in_wait=(hung == "parked-in-wait"), locked=locked), wit)
                 else:
-                    res.inconclusive.append("a forked worker did not finish within the watchdog but no identifier is locked")
-                continue
+                    res.inconclusive.append("a free-running worker did not finish within the watchdog, is not parked in a "
+                                            "store wait() and no identifier is claimed")
+                res.notes.append("a free-running history hung; the remaining histories of this shard were skipped")
+                break
             if any(c != 0 for c in codes) or any("harness_error" in r for r in records):
                 wit["errors"] = [r for r in records if "harness_error" in r]
                 res.violation(dict(shape, symptom="worker-exit-status", codes=sorted(set(codes))), wit)
